@@ -238,8 +238,14 @@ fn check(rest: &[String]) -> ExitCode {
     }
 
     let mut found_json = Vec::new();
+    let mut not_written = 0usize;
     for f in &merged.found {
         violations += 1;
+        // replay files and VIOLATION lines for the first few findings only; the rest is counted
+        if found_json.len() >= 10 {
+            not_written += 1;
+            continue;
+        }
         match write_found(f, &a, &excl) {
             Ok(p) => {
                 println!("violation [{}]: {}", f.source, f.mismatch);
@@ -250,6 +256,9 @@ fn check(rest: &[String]) -> ExitCode {
         }
     }
 
+    if not_written > 0 {
+        println!("{} further violation(s) without a replay file of their own", not_written);
+    }
     let wall = t0.elapsed().as_secs_f64();
     let mut coverage = serde_json::Map::new();
     coverage.insert("evaluations".into(), json!(merged.evaluations));
